@@ -1215,3 +1215,54 @@ def const_str_of(body, pv, op):
         if v.startswith('"') and v.endswith('"'):
             return v[1:-1]
     return None
+
+
+ORIGIN_TRANSPARENT = {"clone", "iter", "into_iter", "next", "copied", "cloned", "deref", "by_ref", "as_ref", "borrow", "to_owned", "unwrap", "expect"}
+
+
+def origins(body, pv, op, depth=0):
+    """shallow origin of a value: follows copies, borrows, projections and the std calls of ORIGIN_TRANSPARENT;
+    stops at every other call.  returns a set of ('call', resolved name) | ('field', adt, name) | ('param', i) | ('const', v)"""
+    out = set()
+    if op.kind == "const":
+        out.add(("const", op.const["val"]))
+        return out
+    if op.place is None:
+        return out
+    work = [op.place]
+    seen = set()
+    defs = pv.defs(body)
+    while work:
+        pl = work.pop()
+        for e in pl.fields():
+            if e != "*" and e[0] == "f" and not e[2].startswith("closure:") and e[2] not in ("tuple", "?"):
+                out.add(("field", e[2], e[1]))
+        l = pl.local
+        if l in seen:
+            continue
+        seen.add(l)
+        if 1 <= l <= body.nargs:
+            out.add(("param", l))
+        for kind, pos, d in defs.get(l, []):
+            if kind == "assign":
+                rv = d.rv
+                if rv["k"] == "use" and rv["op"].place is not None:
+                    work.append(rv["op"].place)
+                elif rv["k"] == "use" and rv["op"].kind == "const":
+                    out.add(("const", rv["op"].const["val"]))
+                elif rv["k"] in ("ref", "rawptr"):
+                    work.append(rv["place"])
+                elif rv["k"] == "cast" and rv["op"].place is not None:
+                    work.append(rv["op"].place)
+                elif rv["k"] == "agg":
+                    for o in rv["ops"]:
+                        if o.place is not None:
+                            work.append(o.place)
+            else:
+                t = d
+                is_clone = (t.callee.trait == "std::clone::Clone" and t.callee.method == "clone") or (t.callee.trait in ("std::iter::Iterator", "std::iter::IntoIterator") and t.callee.method in ("next", "into_iter")) or (t.callee.method == "iter" and t.callee.res in body.prog.bodies and len(t.args) == 1)
+                if (is_clone or (t.callee.method in ORIGIN_TRANSPARENT and not (t.callee.res and t.callee.res in body.prog.bodies))) and t.args and t.args[0].place is not None:
+                    work.append(t.args[0].place)
+                else:
+                    out.add(("call", t.callee.res or t.callee.deff or "<indirect>"))
+    return out
